@@ -8,7 +8,9 @@ finite and is enumerated exhaustively on the real code (every writer x str / Pat
 text and (b) against the prediction of the re-translated abstract program evaluated in Coq (prompts, files
 written, files changed); plus end-to-end runs of every output option of evo_ape / evo_rpe / evo_traj / evo_res
 / evo_config generate, and of all output options of a command at once next to its other switches (--ignore_title,
---use_filenames, --merge, --align_origin, --all_pairs, --ref, --silent ...).
+--use_filenames, --merge, --align_origin, --all_pairs, --ref, --silent ...), and of evo_traj exports in which two
+trajectories of one run map to the same destination (inputs sharing a file stem): the second export finds the file the
+first one created and has to ask.
 """
 import builtins
 import io
@@ -300,6 +302,12 @@ def write_inputs(d):
     t2 = small_traj(12)
     t2.scale(1.01)
     file_interface.write_tum_trajectory_file(os.path.join(d, "est.txt"), t2)
+    # two different trajectory files with the same file stem in different directories (run1/traj.txt, run2/traj.txt)
+    for k, n in ((1, 12), (2, 9)):
+        os.makedirs(os.path.join(d, "run%d" % k), exist_ok=True)
+        t3 = small_traj(n)
+        t3.scale(1.0 + 0.02 * k)
+        file_interface.write_tum_trajectory_file(os.path.join(d, "run%d" % k, "traj.txt"), t3)
     if not _RES_ZIPS:
         from evo import main_ape
         from evo.core.metrics import PoseRelation
@@ -354,7 +362,20 @@ CLI_FLAG_VARIANTS = [
     ("traj_all_ref_origin", "traj", ["tum", "est.txt", "--ref", "ref.txt", "--align_origin", "--full_check"], _TRAJ_OUT, True),
     ("traj_all_silent", "traj", ["tum", "est.txt", "ref.txt", "--silent"], _TRAJ_OUT, False),
 ]
-CLI_ALL = CLI_OPTIONS + [v[:4] for v in CLI_FLAG_VARIANTS]
+# two trajectories exported by ONE run map to the same destination (same file stem in different directories / an estimate
+# and --ref with the same stem): the first export creates ./traj.tum, the second is then "asked to save to a path that
+# already exists". (name, app, fixed args, output options, the inputs exported one at a time, in the quick tier)
+CLI_COLLIDE = [
+    ("traj_collide_tum", "traj", ["tum", "run1/traj.txt", "run2/traj.txt"], ["--save_as_tum"],
+     [["tum", "run1/traj.txt"], ["tum", "run2/traj.txt"]], ["n", "y", ""]),
+    ("traj_collide_kitti", "traj", ["tum", "run1/traj.txt", "run2/traj.txt"], ["--save_as_kitti"],
+     [["tum", "run1/traj.txt"], ["tum", "run2/traj.txt"]], ["n"]),
+    ("traj_collide_ref", "traj", ["tum", "run1/traj.txt", "--ref", "run2/traj.txt"], ["--save_as_tum"],
+     [["tum", "run1/traj.txt"], ["tum", "run2/traj.txt"]], ["n", "y"]),
+    ("traj_collide_both", "traj", ["tum", "run2/traj.txt", "--ref", "run1/traj.txt"], ["--save_as_kitti", "--save_as_tum"],
+     [["tum", "run2/traj.txt"], ["tum", "run1/traj.txt"]], []),
+]
+CLI_ALL = CLI_OPTIONS + [v[:4] for v in CLI_FLAG_VARIANTS] + [v[:4] for v in CLI_COLLIDE]
 _CLI_OUTPUTS = {}
 _RES_ZIPS = []
 
@@ -377,7 +398,18 @@ def cli_outputs(name):
             before = set(os.listdir(d))
             rc, out, err = cli_run(d, app, fixed + opt + ([] if app == "config" else ["--no_warnings"]), "")
             created = sorted(set(os.listdir(d)) - before)
-            _CLI_OUTPUTS[name] = {"files": created, "rc": rc, "err": err[-300:]}
+            info = {"files": created, "rc": rc, "err": err[-300:]}
+            coll = next((v for v in CLI_COLLIDE if v[0] == name), None)
+            if coll is not None:
+                # what each of the colliding exports writes on its own (to name the survivor in a report)
+                info["single"] = []
+                for single in coll[4]:
+                    for f in created:
+                        os.remove(os.path.join(d, f))
+                    cli_run(d, app, single + opt + ["--no_warnings"], "")
+                    info["single"].append({f: (open(os.path.join(d, f), "rb").read() if os.path.isfile(os.path.join(d, f))
+                                               else None) for f in created})
+            _CLI_OUTPUTS[name] = info
         finally:
             shutil.rmtree(d, ignore_errors=True)
     return _CLI_OUTPUTS[name]
@@ -406,7 +438,15 @@ def run_cli(case):
             state[f] = "absent" if b is None else ("old" if (case["exists"] and b == original) or b == SENTINEL else
                                                    ("new" if len(b) > 0 else "empty"))
         n_prompts = out.count("enter 'y' to overwrite")
-        return {"rc": rc, "state": state, "n_prompts": n_prompts, "stderr": err[-300:] if rc != 0 else ""}
+        res = {"rc": rc, "state": state, "n_prompts": n_prompts, "stderr": err[-300:] if rc != 0 else ""}
+        if outs.get("single"):
+            res["content_of"] = {}
+            for f in outs["files"]:
+                p = os.path.join(d, f)
+                b = open(p, "rb").read() if os.path.isfile(p) else None
+                who = [k for k, sg in enumerate(outs["single"]) if b is not None and sg.get(f) == b]
+                res["content_of"][f] = ("export %d of the run" % (who[0] + 1)) if who else state[f]
+        return res
     finally:
         shutil.rmtree(d, ignore_errors=True)
 
@@ -539,6 +579,28 @@ def judge_cli(case, out):
         return {"kind": "model-vs-impl", "failing_input": False, "correspondence": "end-to-end run", "detail": out["error"]}
     generate = case["option"] == "config_generate"
     warn = generate or not case["no_warnings"]
+    coll = next((v for v in CLI_COLLIDE if v[0] == case["option"]), None)
+    if coll is not None and not case["exists"]:
+        # nothing exists beforehand; two exports of this one run go to each output path: the first creates the file, the
+        # second is asked to save to a path that exists by then -> with warnings enabled exactly one confirmation per path
+        # (none for the first export: nothing existed), with warnings disabled none; the file is written in any case
+        _, app, fixed, opt = coll[:4]
+        cmd = "evo_%s %s%s (inputs with the same file stem; answer %r to every prompt)" % (
+            app, " ".join(fixed + opt), " --no_warnings" if case["no_warnings"] else "", case["answer"])
+        if any(st != "new" for st in out["state"].values()):
+            return {"kind": "spec-violation", "failing_input": True,
+                    "detail": "%s: output not written although nothing existed: %r (rc %s %s)" % (cmd, out["state"], out["rc"], out["stderr"])}
+        want = len(out["state"]) if warn else 0
+        if warn and out["n_prompts"] == 0:
+            return {"kind": "spec-violation", "failing_input": True,
+                    "detail": "%s: two trajectories are exported to each of %r; the second export finds the file the first one "
+                              "just created, yet no confirmation was asked with warnings enabled (0 prompts); afterwards the "
+                              "files hold %r" % (cmd, sorted(out["state"]), out.get("content_of"))}
+        if out["n_prompts"] != want:
+            return {"kind": "spec-violation", "failing_input": True,
+                    "detail": "%s: %d confirmations asked, %d are due (one per output path that exists at the time of its second "
+                              "export%s)" % (cmd, out["n_prompts"], want, "" if warn else "; warnings are disabled")}
+        return None
     for f, st in out["state"].items():
         if st == "empty":
             return {"kind": "spec-violation", "failing_input": True, "detail": "%s was truncated" % f}
@@ -649,6 +711,15 @@ def cli_cases(ctx):
         if not ctx.quick:
             cases.append({"kind": "cli", "option": name, "exists": True, "answer": "n", "no_warnings": True})
             cases.append({"kind": "cli", "option": name, "exists": False, "answer": "n", "no_warnings": False})
+    # two exports of one run to the same destination (inputs sharing a file stem)
+    for name, app, fixed, opt, singles, quick_answers in CLI_COLLIDE:
+        for a in (quick_answers if ctx.quick else ["n", "y", "", "Y", "yes"]):
+            cases.append({"kind": "cli", "option": name, "exists": False, "answer": a, "no_warnings": False})
+        if not ctx.quick or name == "traj_collide_tum":
+            cases.append({"kind": "cli", "option": name, "exists": False, "answer": "n", "no_warnings": True})
+            cases.append({"kind": "cli", "option": name, "exists": True, "answer": "n", "no_warnings": False})
+        if not ctx.quick:
+            cases.append({"kind": "cli", "option": name, "exists": True, "answer": "y", "no_warnings": False})
     # existing zero-byte targets
     quick_empty = ("traj_save_as_tum", "ape_save_results", "res_save_table", "rpe_save_plot", "config_generate")
     for name, app, fixed, opt in CLI_OPTIONS:
@@ -717,6 +788,7 @@ def run(ctx, replay=None, proofs_ok=True):
            "samples": cases[:2] + cases[-2:], "input_distribution": hist,
            "api_configurations": sum(1 for c in cases if c["kind"] == "api"),
            "cli_runs": len(cli), "answers": ANSWERS,
+           "cli_runs_two_exports_to_one_path": sum(1 for c in cli if c["option"].startswith("traj_collide")),
            "opaque_conditions_unknown_to_harness": ambiguous,
            "call_sites": META.get("_sites"), "direct_writes_in_cli_modules": META.get("_direct"),
            "disagreements": stats["disagreements"]}
